@@ -182,7 +182,26 @@ func provide[O any](ctx context.Context, clients []Client, fallbacks []Client,
 			hasNokResp bool
 		)
 
-		for res := range join() {
+		results := join()
+
+		for {
+			var (
+				res forkjoin.Result[provideArgs, O]
+				ok  bool
+			)
+
+			// Also watch the caller's context: a request that does not react to
+			// cancellation must not keep a cancelled call blocked.
+			select {
+			case <-ctx.Done():
+				return zero, ctx.Err()
+			case res, ok = <-results:
+			}
+
+			if !ok {
+				break
+			}
+
 			if ctx.Err() != nil {
 				return zero, ctx.Err()
 			} else if res.Err == nil && isSuccessFunc(res.Output) {
